@@ -319,6 +319,13 @@ func c09Strata() []*gast.Grammar {
 			r("KeyStart", gast.C(gast.Ref("Letter"), gast.L("-"))), r("Letter", gast.Cl(&gast.ClassSpec{Ranges: [][2]rune{{'a', 'c'}}}))),
 		mk(r("S", gast.Plus(gast.C(gast.Ref("A"), gast.Ref("B"), gast.Ref("D")))), r("A", gast.S(gast.L("<"), gast.C(gast.Ref("K"), gast.L("x")))), r("B", gast.S(gast.L(">"), gast.C(gast.L("y"), gast.Ref("K")))),
 			r("D", gast.S(gast.L("!"), gast.C(gast.Ref("K"), gast.Cl(gast.Chars("z"))))), r("K", gast.Cl(gast.Chars("abc")))),
+		// a leaf rule referenced directly and again inside a bare group of the same sequence
+		mk(r("S", gast.S(gast.Ref("Span"), gast.Star(gast.S(gast.L(","), gast.Ref("Span"))), gast.NotE(gast.Dot()))),
+			r("Span", gast.S(gast.Ref("Number"), gast.S(gast.L("-"), gast.Ref("Number")))), r("Number", act(gast.Plus(gast.Cl(gast.Chars("01"))), 1))),
+		mk(r("S", gast.C(gast.S(gast.Ref("K"), gast.C(gast.L("x"), gast.C(gast.Ref("K"), gast.L("y")))), gast.Ref("K"))), r("K", gast.Cl(gast.Chars("ab")))),
+		// nested recovery operators sharing a label (fall-through) and sibling operators
+		mk(r("S", gast.Rec(gast.Rec(gast.S(gast.L("a"), gast.Ref("T")), act(gast.L("x"), 1), "L1"), act(gast.Dot(), 2), "L1", "L2")), r("T", gast.C(gast.L("b"), gast.Thr("L1")))),
+		mk(r("S", gast.Rec(gast.Ref("I"), act(gast.Dot(), 2), "L1")), r("I", gast.Rec(gast.S(gast.L("a"), gast.C(gast.L("b"), gast.Thr("L1"))), act(gast.L("x"), 1), "L1"))),
 		// keyword idiom: literals with and without i next to each other, some without cased characters
 		mk(r("S", gast.S(gast.Li("select"), gast.L(" "), gast.Ref("N"), gast.L(" "), gast.Li("from"), gast.L(" "), gast.Ref("N"), gast.Opt(gast.S(gast.L(" "), gast.Li("order"), gast.Li(" by"), gast.L(" "), gast.Ref("N"))), gast.L(";"))),
 			r("N", gast.Plus(gast.Cl(gast.Chars("ab"))))),
